@@ -25,10 +25,11 @@ def araBit (issued : Bool) : R (Option Bool) := do
 def threatRange (n : Nat) : Option Json :=
   if n == 0 then none else some (jrat ((n : Int) - 1) 10)
 
-/-- `bearing`: `|n: u16| if n == 0 { None } else { Some(6 * (n - 1) + 3) }` in overflow-checked
-    `u16` arithmetic.  NB codes 61..63 give 363, 369, 375 degrees (no upper check in the code). -/
+/-- `bearing`: `|n: u16| if n == 0 || n > 60 { None } else { Some(6 * (n - 1) + 3) }` in
+    overflow-checked `u16` arithmetic (after the C08 repair; the original code had no upper test and
+    reported 363, 369, 375 degrees for the unassigned codes 61..63). -/
 def threatBearing (n : Nat) : Outcome (Option Nat) :=
-  if n == 0 then .ok none else do
+  if n == 0 || n > 60 then .ok none else do
     let a ← subU n 1
     let b ← mulU 16 6 a
     let c ← addU 16 b 3
